@@ -22,10 +22,12 @@ Record wargs := {
   a_state : bool;                 (* state_trigger=<expression> given *)
   a_cn : option bool;             (* state_check_now (None = not passed) *)
   a_hold : option Z;              (* state_hold *)
+  a_hf : option Z;                (* state_hold_false *)
   a_times : option (list Z);      (* time_trigger=[once(now + o) ...]: offsets o; o <= 0 has no future instant *)
   a_event : bool;                 (* event_trigger given *)
   a_timeout : option Z;           (* timeout (0 allowed) *)
-  a_badexpr : bool                (* a further mqtt_/webhook_trigger whose condition does not parse *)
+  a_badexpr : bool;               (* a further mqtt_/webhook_trigger whose condition does not parse *)
+  a_shared : bool                 (* other legacy listeners of the awaited event type exist (they share one bus listener) *)
 }.
 
 (* ---------- exits ---------- *)
@@ -122,6 +124,7 @@ Record lparams := {
   lp_state : bool;            (* subscribed to the state variable *)
   lp_event : bool;            (* subscribed to the event type *)
   lp_hold : option Z;
+  lp_hf : option Z;           (* state_hold_false *)
   lp_offs : list Z;           (* positive offsets of the time triggers *)
   lp_timeout : option Z;      (* effective timeout *)
   lp_restart : bool;          (* every wake-up re-bases the time triggers *)
@@ -143,8 +146,19 @@ Definition timers (p : lparams) (base : Z) (hp : option (Z * N)) : list (Z * ret
 
 Definition wake (p : lparams) (base t : Z) : Z := if lp_restart p then t else base.
 
+(* state_hold_false: [fp] = start of the running false period of the expression (None: the expression is true, or the
+   option is not used).  A true evaluation counts only when the expression has been false for at least the duration. *)
+Definition hf_passed (hf : option Z) (fp : option Z) (t : Z) : bool :=
+  match hf with
+  | None => true
+  | Some d => match fp with Some f => d <=? t - f | None => false end
+  end.
+Definition fp_on_true (hf : option Z) (fp : option Z) : option Z := match hf with None => fp | Some _ => None end.
+Definition fp_on_false (hf : option Z) (fp : option Z) (t : Z) : option Z :=
+  match hf with None => fp | Some _ => match fp with None => Some t | Some f => Some f end end.
+
 (* [L] is the ledger during the wait (prologue done).  Every exit except a leaking cancellation runs the epilogue. *)
-Fixpoint loop (p : lparams) (L : ledger) (base : Z) (hp : option (Z * N)) (h : hist) : result :=
+Fixpoint loop (p : lparams) (L : ledger) (base : Z) (hp : option (Z * N)) (fp : option Z) (h : hist) : result :=
   let release := lg_sub L (lp_subs p) in
   match h with
   | [] =>
@@ -156,33 +170,39 @@ Fixpoint loop (p : lparams) (L : ledger) (base : Z) (hp : option (Z * N)) (h : h
       let deliver :=
         match o with
         | OCancel => done XCancelled t (if lp_leak p then L else release)
-        | OUnw => loop p L base hp rest
-        | OAttr _ => if lp_state p then loop p L (wake p base t) (if lp_attr_false p then None else hp) rest
-                     else loop p L base hp rest
+        | OUnw => loop p L base hp fp rest
+        | OAttr _ => if lp_state p then
+                       if lp_attr_false p then loop p L (wake p base t) None (fp_on_false (lp_hf p) fp t) rest
+                       else loop p L (wake p base t) hp fp rest
+                     else loop p L base hp fp rest
         | OState r n =>
             if lp_state p then
               match r with
               | SRaise => done (XExc EState) t release
               | STrue =>
-                  match lp_hold p with
-                  | None => done (XRet (RState n)) t release
-                  | Some _ => loop p L (wake p base t)
-                                   (match hp with
-                                    | None => Some (t, n)                       (* the hold period starts *)
-                                    | Some (ts, m) => Some (ts, if lp_latest p then n else m)   (* never restarted *)
-                                    end) rest
-                  end
-              | SFalse => loop p L (wake p base t) None rest
+                  if hf_passed (lp_hf p) fp t then
+                    match lp_hold p with
+                    | None => done (XRet (RState n)) t release
+                    | Some _ => loop p L (wake p base t)
+                                     (match hp with
+                                      | None => Some (t, n)                       (* the hold period starts *)
+                                      | Some (ts, m) => Some (ts, if lp_latest p then n else m)   (* never restarted *)
+                                      end) (fp_on_true (lp_hf p) fp) rest
+                    end
+                  else loop p L (wake p base t)
+                            (match hp with None => None | Some (ts, m) => Some (ts, if lp_latest p then n else m) end)
+                            (fp_on_true (lp_hf p) fp) rest
+              | SFalse => loop p L (wake p base t) None (fp_on_false (lp_hf p) fp t) rest
               end
-            else loop p L base hp rest
+            else loop p L base hp fp rest
         | OEvent r n =>
             if lp_event p then
               match r with
               | SRaise => done (XExc EEvent) t release
               | STrue => done (XRet (REvent n)) t release
-              | SFalse => loop p L (wake p base t) hp rest
+              | SFalse => loop p L (wake p base t) hp fp rest
               end
-            else loop p L base hp rest
+            else loop p L base hp fp rest
         end in
       match earliest (timers p base hp) with
       | Some (tm, r) => if tm <=? t then done (XRet r) tm release else deliver
@@ -192,7 +212,8 @@ Fixpoint loop (p : lparams) (L : ledger) (base : Z) (hp : option (Z * N)) (h : h
 
 (* ---------- prologues ---------- *)
 Definition mkp (a : wargs) (timeout : option Z) (restart leak latest attr_false : bool) (subs : ledger) : lparams :=
-  {| lp_state := a_state a; lp_event := a_event a; lp_hold := a_hold a; lp_offs := future_offs a; lp_timeout := timeout;
+  {| lp_state := a_state a; lp_event := a_event a; lp_hold := a_hold a; lp_hf := a_hf a; lp_offs := future_offs a;
+     lp_timeout := timeout;
      lp_restart := restart; lp_leak := leak; lp_latest := latest; lp_attr_false := attr_false; lp_subs := subs |}.
 
 Definition cn_eff (legacy : bool) (a : wargs) : bool :=
@@ -202,33 +223,36 @@ Definition no_args (a : wargs) : bool :=
   negb (a_state a) && negb (a_event a) && negb (a_badexpr a)
   && match a_times a with None => true | Some _ => false end.
 
-(* what the immediate check does: Some exit = done at time 0; None = go on (with a hold possibly pending) *)
-Definition immediate (cn : bool) (a : wargs) (truth : sres) : option exit * option (Z * N) :=
-  if a_state a && cn then
+(* what the check at the call does (the expression is evaluated when state_check_now or state_hold_false is in effect):
+   Some exit = done at time 0; None = go on, with a hold period possibly pending and a false period possibly running *)
+Definition immediate (cn : bool) (a : wargs) (truth : sres) : option exit * option (Z * N) * option Z :=
+  if a_state a && (cn || match a_hf a with Some _ => true | None => false end) then
     match truth with
-    | SRaise => (Some (XExc EState), None)
-    | STrue => match a_hold a with None => (Some (XRet (RState 0)), None) | Some _ => (None, Some (0, 0%N)) end
-    | SFalse => (None, None)
+    | SRaise => (Some (XExc EState), None, None)
+    | STrue => if cn then
+                 match a_hold a with None => (Some (XRet (RState 0)), None, None) | Some _ => (None, Some (0, 0%N), None) end
+               else (None, None, None)
+    | SFalse => (None, None, fp_on_false (a_hf a) None 0)
     end
-  else (None, None).
+  else (None, None, None).
 
 (* legacy: trigger.py TrigTime.wait_until *)
 Definition legacy_state_subs (a : wargs) : ledger :=
   {| lg_state := b2n (a_state a); lg_evq := 0; lg_bus := 0; lg_tasks := 0 |}.
 Definition legacy_event_subs (a : wargs) : ledger :=
-  {| lg_state := 0; lg_evq := b2n (a_event a); lg_bus := b2n (a_event a); lg_tasks := 0 |}.
+  {| lg_state := 0; lg_evq := b2n (a_event a); lg_bus := b2n (a_event a && negb (a_shared a)); lg_tasks := 0 |}.
 
 Definition run_legacy (cfg : deviations) (a : wargs) (L0 : ledger) (truth : sres) (h : hist) : result :=
   if no_args a then
     (* l.237-247: nothing to wait for: sleep(timeout) or 'none'; nothing is registered *)
     match a_timeout a with
     | None => done (XRet RNone) 0 L0
-    | Some T => loop (mkp a (Some T) false false false false lg_zero) L0 0 None h      (* no state/event/time trigger in [a] *)
+    | Some T => loop (mkp a (Some T) false false false false lg_zero) L0 0 None None h      (* no state/event/time trigger in [a] *)
     end
   else
     match immediate (cn_eff true a) a truth with
-    | (Some x, _) => done x 0 L0                         (* l.294-316, before any subscription *)
-    | (None, hp0) =>
+    | (Some x, _, _) => done x 0 L0                      (* l.294-316, before any subscription *)
+    | (None, hp0, fp0) =>
         let L1 := lg_add (lg_add L0 (legacy_state_subs a)) (legacy_event_subs a) in
         if a_badexpr a then
           (* l.352-357 / 369-374: the except clause releases the state subscription only *)
@@ -242,7 +266,7 @@ Definition run_legacy (cfg : deviations) (a : wargs) (L0 : ledger) (truth : sres
           then done (XRet RNone) 0 (lg_sub L1 (lg_add (legacy_state_subs a) (legacy_event_subs a)))   (* l.423-435 *)
           else
             loop (mkp a (a_timeout a) (d_now_restarts cfg) (d_leak_legacy cfg) false false
-                      (lg_add (legacy_state_subs a) (legacy_event_subs a))) L1 0 hp0 h
+                      (lg_add (legacy_state_subs a) (legacy_event_subs a))) L1 0 hp0 fp0 h
     end.
 
 (* default subsystem: DecoratorRegistry.wait_until + WaitUntilDecoratorManager; start order of the temporary
@@ -267,8 +291,8 @@ Definition run_dm (cfg : deviations) (a : wargs) (L0 : ledger) (truth : sres) (h
     then done (XExc EOther) 0 L0                               (* no decorators: dm.start() raises RuntimeError *)
     else
       match immediate (cn_eff false a) a truth with
-      | (Some x, _) => done x 0 L0                             (* the dispatch inside start() stops everything started so far *)
-      | (None, hp0) =>
+      | (Some x, _, _) => done x 0 L0                          (* the dispatch inside start() stops everything started so far *)
+      | (None, hp0, fp0) =>
           let offs := future_offs a in
           let only_time := negb (a_state a) && negb (a_event a) && match T with None => true | Some _ => false end in
           if match a_times a with Some _ => true | None => false end
@@ -277,7 +301,7 @@ Definition run_dm (cfg : deviations) (a : wargs) (L0 : ledger) (truth : sres) (h
           then done (XRet RNone) 0 L0                          (* timing.py _cycle: time_next is None -> dispatch 'none' *)
           else
             let subs := dm_subs cfg a in
-            loop (mkp a T false (d_leak_dm cfg) (d_hold_latest cfg) (d_hold_attr_cancels cfg) subs) (lg_add L0 subs) 0 hp0 h
+            loop (mkp a T false (d_leak_dm cfg) (d_hold_latest cfg) (d_hold_attr_cancels cfg) subs) (lg_add L0 subs) 0 hp0 fp0 h
       end.
 
 Definition run (cfg : deviations) (legacy : bool) (a : wargs) (L0 : ledger) (init : sres) (pre h : hist) : result :=
@@ -297,33 +321,36 @@ Definition statics (a : wargs) : list (Z * ret) :=
   map (fun o => (o, RTime o)) (future_offs a) ++ map (fun T => (T, RTimeout)) (opt_list (a_timeout a)).
 
 (* first qualifying occurrence; [hp] = a state_hold period running since (ts, n) *)
-Fixpoint first_occ (a : wargs) (hp : option (Z * N)) (h : hist) : option (Z * exit) :=
+Fixpoint first_occ (a : wargs) (hp : option (Z * N)) (fp : option Z) (h : hist) : option (Z * exit) :=
   match h with
   | [] => match expiry (a_hold a) hp with Some (te, r) => Some (te, XRet r) | None => None end
   | (t, o) :: rest =>
       let here :=
         match o with
         | OCancel => Some (t, XCancelled)
-        | OUnw | OAttr _ => first_occ a hp rest
+        | OUnw | OAttr _ => first_occ a hp fp rest
         | OState r n =>
             if a_state a then
               match r with
               | SRaise => Some (t, XExc EState)
-              | STrue => match a_hold a with
-                         | None => Some (t, XRet (RState n))
-                         | Some _ => first_occ a (match hp with None => Some (t, n) | Some _ => hp end) rest
-                         end
-              | SFalse => first_occ a None rest
+              | STrue =>
+                  if hf_passed (a_hf a) fp t then          (* false for long enough (or no state_hold_false) *)
+                    match a_hold a with
+                    | None => Some (t, XRet (RState n))
+                    | Some _ => first_occ a (match hp with None => Some (t, n) | Some _ => hp end) (fp_on_true (a_hf a) fp) rest
+                    end
+                  else first_occ a hp (fp_on_true (a_hf a) fp) rest     (* too soon: wait for the next false period *)
+              | SFalse => first_occ a None (fp_on_false (a_hf a) fp t) rest
               end
-            else first_occ a hp rest
+            else first_occ a hp fp rest
         | OEvent r n =>
             if a_event a then
               match r with
               | SRaise => Some (t, XExc EEvent)
               | STrue => Some (t, XRet (REvent n))
-              | SFalse => first_occ a hp rest
+              | SFalse => first_occ a hp fp rest
               end
-            else first_occ a hp rest
+            else first_occ a hp fp rest
         end in
       match expiry (a_hold a) hp with
       | Some (te, r) => if te <=? t then Some (te, XRet r) else here
@@ -342,12 +369,12 @@ Definition pick (s : option (Z * ret)) (o : option (Z * exit)) : exit * Z :=
 Definition spec_run (a : wargs) (truth : sres) (h : hist) : exit * Z :=
   let cn := match a_cn a with Some b => b | None => spec_cn_default end in
   match immediate cn a truth with
-  | (Some x, _) => (x, 0)
-  | (None, hp0) =>
+  | (Some x, _, _) => (x, 0)
+  | (None, hp0, fp0) =>
       if a_badexpr a then (XExc ESyntax, 0)
       else if negb (a_state a) && negb (a_event a) && match statics a with [] => true | _ => false end
       then (XRet RNone, 0)
-      else pick (earliest (statics a)) (first_occ a hp0 h)
+      else pick (earliest (statics a)) (first_occ a hp0 fp0 h)
   end.
 
 (* the timed histories the property quantifies over: instants after the call, in order *)
